@@ -396,7 +396,8 @@ func (f *family) runBatch(peg string, cases []*gcase, vs []variant, bno int) {
 				if len(failing) > 3 {
 					failing = failing[:3]
 				}
-				order := append(append([]int(nil), failing...), accepting[rr.Intn(len(accepting))])
+				// the first failing rule is tried twice in a row (its failure is in the memo table the second time)
+				order := append(append([]int{failing[0]}, failing...), accepting[rr.Intn(len(accepting))])
 				pl := rplan{at: len(reqs), rules: order}
 				for _, ri := range order {
 					pl.refs = append(pl.refs, all[ri])
